@@ -3,6 +3,7 @@ package security
 import (
 	"fmt"
 	"regexp"
+	"sort"
 )
 
 // Severity represents the severity level of a security finding.
@@ -79,12 +80,16 @@ func (s *Scanner) Scan(sql string) []Finding {
 	for _, r := range s.rules {
 		findings = append(findings, r.Check(sql)...)
 	}
-	// Compute line/column for each finding
+	// Compute line/column for each finding. The line starts are indexed once:
+	// counting lines from the start of the text for every finding would make a
+	// text with many findings cost findings x length.
+	var starts []int
 	for i := range findings {
 		if findings[i].Position >= 0 && findings[i].Line == 0 {
-			line, col := posToLineCol(sql, findings[i].Position)
-			findings[i].Line = line
-			findings[i].Column = col
+			if starts == nil {
+				starts = lineStarts(sql)
+			}
+			findings[i].Line, findings[i].Column = lineColAt(starts, len(sql), findings[i].Position)
 		}
 	}
 	return findings
@@ -101,6 +106,26 @@ func defaultRules() []Rule {
 		&LikeInjectionRule{},
 		&UnionInjectionRule{},
 	}
+}
+
+// lineStarts returns the byte offset at which every line of sql begins.
+func lineStarts(sql string) []int {
+	starts := []int{0}
+	for i := 0; i < len(sql); i++ {
+		if sql[i] == '\n' {
+			starts = append(starts, i+1)
+		}
+	}
+	return starts
+}
+
+// lineColAt gives the 1-based line and column of byte offset pos (see posToLineCol).
+func lineColAt(starts []int, size, pos int) (int, int) {
+	if pos > size {
+		pos = size
+	}
+	line := sort.Search(len(starts), func(i int) bool { return starts[i] > pos })
+	return line, pos - starts[line-1] + 1
 }
 
 func posToLineCol(sql string, pos int) (int, int) {
